@@ -101,6 +101,8 @@ let tablets_of (st : static) (k : n * n) (hist_s : string) key =
     end);
   match !tcache with Some i -> i | None -> failwith "tablets model panicked"
 
+type obsr = Obs of (n * n) option | Bad of string
+
 let verdict case impl =
   match case, impl with
   | ["K"; nodes_s; ring_s; ks_s; cfg_s; stmt_s; tabs_s; vals_s], [obs_s; pools_s] ->
@@ -117,7 +119,7 @@ let verdict case impl =
         | _ -> failwith "bad cfg" in
       (* stmt: ks.tb/part/lwt/serial/markers *)
       let (stm, serial) = match String.split_on_char '/' stmt_s with
-        | [kt; part; lwt; serial; marks] ->
+        | kt :: part :: lwt :: serial :: marks :: _api ->
           let k = match String.split_on_char '.' kt with
             | [ks; tb] -> (hexn ks, hexn tb) | _ -> failwith "bad table" in
           let ms = split_on ',' marks in
@@ -145,18 +147,32 @@ let verdict case impl =
                  c_tablets = tinfo } in
       let values = parse_vals vals_s in
       let obs = match obs_s with
-        | "none" -> Ok None
+        | "none" -> Obs None
         | s when String.contains s ':' && s.[0] <> 'b' && s.[0] <> 's' ->
           (match String.split_on_char ':' s with
-           | [n; sh] -> Ok (Some (hexn n, hexn sh)) | _ -> Error s)
-        | s -> Error s in
+           | [n; sh] -> Obs (Some (hexn n, hexn sh)) | _ -> Bad s)
+        | s -> Bad s in
       match obs with
-      | Error s -> "diff runner-reported " ^ s
-      | Ok obs ->
+      | Bad s -> "diff runner-reported " ^ s
+      | Obs obs ->
         if not coherent then "ok skipped incoherent-snapshot"
         else if not (cluster_wfb cl (List.map (fun x -> x.id) st.nodes)) then "error ill-formed-cluster"
-        else if not (tokens_distinct st.g) then "error repeated-token"
-        else if route_ok cl cfg stm values obs then "ok"
+        else if route_ok cl cfg stm values obs then begin
+          (* which part of the property this request exercised (counted in the evidence) *)
+          match routing_request stm cfg values with
+          | Err _ -> "ok kind=key-refused"
+          | Ok rq ->
+            let src = route_source cl cfg.ex_pol rq stm.st_table in
+            let tab = find_table tinfo k <> None in
+            (match src with
+             | None -> "ok kind=not-token-aware"
+             | Some _ ->
+               let rc = replica_cands cl cfg rq src in
+               let covered = match rq.rq_token with Some t -> lookup tinfo k t <> None | None -> false in
+               if rc <> [] then (if tab then "ok kind=tablet-replica" else "ok kind=ring-replica")
+               else if tab then (if covered then "ok kind=tablet-no-usable-replica" else "ok kind=tablet-unknown-token")
+               else "ok kind=ring-no-usable-replica")
+        end
         else begin
           (* the acceptor refused: evaluate the property itself, phrased with the specification *)
           let spec_tok =
